@@ -451,6 +451,12 @@ def run(ck, replay=None):
                 if len(ck.cov['samples']) < 4 and 'Crash' in m['sig'] and m['sig'].count('W') >= 2:
                     ck.sample({'kind': m['kind'], 'history': m['sig'], 'longest_line_bytes': m.get('maxline'),
                                'texts': {k: dict(v, unit=v['unit'][:30]) for k, v in m['row']['texts'].items()}})
+    if not ck.cov['samples']:
+        for rid, m in meta.items():
+            if m['ok'] and nontrivial(m['steps']):
+                ck.sample({'kind': m['kind'], 'history': m['sig'], 'longest_line_bytes': m.get('maxline')})
+                if len(ck.cov['samples']) >= 2:
+                    break
     ck.cov['distinct_nontrivial'] = len(nontriv)
     ck.cov['rows_by_kind(total,matched)'] = kinds
     ck.cov['loads_compared'] = stats['loads']
